@@ -431,6 +431,11 @@ def main(argv=None):
                 rep = replay_model(prop, o["cidx"], o["label"], model, o["kind"], tier)
                 payload["native_replay"] = rep
             confirmed = rep["confirmed"] if rep else None
+            if confirmed is not True and not o["vars"] and not m and o["kind"] != "raise":
+                # a goal without free variables: the contract executed the REAL code natively on concrete inputs (the ones its
+                # label names) and the comparison came out false - that run is the failing input, there is nothing to search
+                confirmed = True
+                payload["native_replay"] = {"confirmed": True, "detail": "decided by native execution of the real code on the concrete inputs named in the obligation; the comparison evaluated to false", "inputs": {"scenario": o["label"], "observed": o["show"][:500]}}
             if confirmed is not True:
                 # try the numeric failures seen in the cross-check, then a sampling search
                 base = o["label"].split("[")[0]
